@@ -333,6 +333,67 @@ let run_rth2traj (w : string list) : string =
      | r -> show_res_code (fun _ -> "0") r)
   | _ -> "bad-args"
 
+(* ---------- allocation discipline (C17) *)
+let kind_of_string = function "t" -> M.KTraj | "l" -> M.KLight | "y" -> M.KYaw | _ -> M.KRth
+let hexlen s = if s = "-" then 0 else String.length s / 2
+
+let parse_alloc_op (o : string) : M.op option =
+  let n s = nat_of_int (int_of_string s) in
+  match String.split_on_char ':' o with
+  | ["bi"; o; k] -> Some (M.OpBufInit (n o, n k))
+  | ["bv"; o; c; k] -> Some (M.OpBufView (n o, n c, n k))
+  | ["bb"; o; k] -> Some (M.OpBufFromBytes (n o, n k))
+  | ["br"; o; k] -> Some (M.OpBufResize (n o, n k))
+  | ["ba"; o; k] -> Some (M.OpBufAppend (n o, n k))
+  | ["be"; o; k] -> Some (M.OpBufExtend (n o, n k))
+  | ["bc"; o] -> Some (M.OpBufClear (n o))
+  | ["bp"; o] -> Some (M.OpBufPrune (n o))
+  | ["em"; k; o] -> Some (M.OpEmpty (kind_of_string k, n o))
+  | ["fb"; k; o; c; hex] -> Some (M.OpFromBuffer (kind_of_string k, n o, n c, nat_of_int (hexlen hex)))
+  | ["tb"; o; hex] -> Some (M.OpTrajFromBytes (n o, nat_of_int (hexlen hex)))
+  | ["ff"; k; o; r; c; hex] -> Some (M.OpFromFile (kind_of_string k, n o, (if r = "f" then M.Fd else M.Mem), n c, bytes_of_hex hex))
+  | ["cl"; o] -> Some (M.OpClear (n o))
+  | ["de"; o] -> Some (M.OpDestroy (n o))
+  | ["Bi"; o; sc] -> Some (M.OpBuilderInit (n o, z_of_string sc))
+  | ["Bs"; o; x; y; z; w] -> Some (M.OpBuilderStart (n o, vec4_of_hex x y z w))
+  | ["Bl"; o; x; y; z; w; d] -> Some (M.OpBuilderLine (n o, vec4_of_hex x y z w, z_of_string d))
+  | ["Bh"; o; d] -> Some (M.OpBuilderHold (n o, z_of_string d))
+  | ["Bf"; o; t] -> Some (M.OpBuilderFinish (n o, n t))
+  | ["rt"; t; time; action; dur; tx; ty; alt; pre; post; neck; neckd; sx; sy; sz; sw] ->
+    let e = { M.re_time = fnum_of_hex time; M.re_action = z_of_string action; M.re_duration = fnum_of_hex dur;
+              M.re_target = (q_of_hex tx, q_of_hex ty); M.re_altitude = q_of_hex alt;
+              M.re_pre_delay = fnum_of_hex pre; M.re_post_delay = fnum_of_hex post;
+              M.re_neck = q_of_hex neck; M.re_neck_duration = fnum_of_hex neckd } in
+    Some (M.OpRthToTraj (n t, e, vec4_of_hex sx sy sz sw))
+  | ["pi"; p; o] -> Some (M.OpPlayerInit (n p, n o))
+  | ["ps"; k] -> Some (M.OpPolySolve (n k))
+  | _ -> None
+
+let show_event = function
+  | M.EvAlloc (id, sz) -> pr "a%d:%d" (int_of_nat id) (int_of_nat sz)
+  | M.EvAllocFail sz -> pr "af:%d" (int_of_nat sz)
+  | M.EvRealloc (o, id, sz) -> pr "r%d>%d:%d" (int_of_nat o) (int_of_nat id) (int_of_nat sz)
+  | M.EvReallocFail (o, sz) -> pr "rf%d:%d" (int_of_nat o) (int_of_nat sz)
+  | M.EvFree id -> pr "f%d" (int_of_nat id)
+  | M.EvNew id -> pr "n%d" (int_of_nat id)
+  | M.EvDelete id -> pr "d%d" (int_of_nat id)
+  | M.EvCallerAlloc (id, sz) -> pr "c%d:%d" (int_of_nat id) (int_of_nat sz)
+  | M.EvBad _ -> "bad"
+
+let run_alloc (nslots : string) (k : string) (ops : string) : string =
+  let parsed = List.map parse_alloc_op (String.split_on_char ';' ops) in
+  if List.mem None parsed then "bad-op" else
+  let ops = List.map (function Some o -> o | None -> assert false) parsed in
+  let ki = int_of_string k in
+  let fail = if ki <= 0 then None else Some (nat_of_int (ki - 1)) in
+  let ((rcs, _), h) = M.scenario (nat_of_int (int_of_string nslots)) fail ops in
+  let tr = M.trace_of h in
+  let nbad = List.length (List.filter (function M.EvBad _ -> true | _ -> false) tr) in
+  pr "rcs=%s trace=%s live=%d bad=%d"
+    (String.concat "," (List.map (function M.Rc e -> string_of_z e | M.Skipped -> "s") rcs))
+    (if tr = [] then "-" else String.concat "," (List.map show_event tr))
+    (List.length h.M.h_live) nbad
+
 let run_util (w : string list) : string =
   match w with
   | ["travel"; d; v; a] -> show_fnum (M.travel_time (fnum_of_hex d) (fnum_of_hex v) (fnum_of_hex a))
@@ -497,6 +558,7 @@ let run_case (w : string list) : string =
   | "poly" :: rest -> run_poly rest
   | ["build"; sc; fl; calls] -> run_build sc fl calls
   | "rth2traj" :: rest -> run_rth2traj rest
+  | ["alloc"; n; k; ops] -> run_alloc n k ops
   | "util" :: rest -> run_util rest
   | ["light"; mode; b; qs] -> run_light mode (bytes_of_hex b) (if qs = "-" then [] else String.split_on_char ',' qs)
   | ["lightspec"; b; qs] -> run_lightspec (bytes_of_hex b) (if qs = "-" then [] else String.split_on_char ',' qs)
